@@ -135,6 +135,26 @@ class RealVal:
         used('A-FLOAT')
         return I.vc.fresh_bool('ratio_cmp')
 
+    def sym_int(self, I):
+        # int(a / b): an arbitrary integer (only progress-callback throttling uses it)
+        used('A-FLOAT')
+        return SInt.fresh('trunc')
+
+
+class CallbackFn:
+    """A progress callback supplied by the caller (A-CB: neither raises nor re-enters the container)."""
+
+    def __init__(self):
+        self.calls = 0
+
+    def sym_call(self, I, args, kwargs):
+        used('A-CB')
+        self.calls += 1
+        return None
+
+    def sym_truth(self, vc):
+        return True
+
 
 def real_div(I, a, b):
     if not is_sym(a) and not is_sym(b):
@@ -433,6 +453,8 @@ def _list_append(I, l, x):
         l.items.append(x)
         return None
     g = l.g
+    if 'joined' in g:
+        g['joined'] = _cat(SBytes, g['joined'], x)
     if 'elems' in g:
         g['elems'] = g['elems'].add(x)
     if 'n' in g:
@@ -1096,30 +1118,49 @@ class DecompObj:
         used('E-ZLIB')
         vc = I.vc
         c = SBytes.of(chunk)
-        supplied = _cat(SBytes, self.inp, c)
-        good = b_and(zvalid(self.Z), SBytes.of(self.Z).startswith(supplied))
-        # corrupt input may raise (never for a prefix of a valid stream)
-        if vc.nondet_bool(label='zlib_error'):
-            vc.assume(b_not(good))
-            raise_py('zlib.error', origin='decompress')
+        supplied = SBytes.of(_cat(SBytes, self.inp, c))
+        Z = SBytes.of(self.Z)
+        D = dec(True, Z)
+        ml = SInt.of(max_length)
         n1 = SInt.fresh('consumed')
         vc.assume(b_and(n1 >= 0, n1 <= c.length()))
-        r = SBytes.fresh('inflated')
-        ml = SInt.of(max_length)
-        vc.assume(implies(ml > 0, r.length() <= ml))
         new_inp = _cat(SBytes, self.inp, c.slice(0, n1))
-        new_out = _cat(SBytes, self.out, r)
         tail = c.slice(n1, None)
         eof = vc.fresh_bool('eof')
-        D = dec(True, self.Z)
-        vc.assume(implies(good, b_and(
-            D.startswith(new_out),
-            eof == (SBytes.of(new_inp) == self.Z),
-            implies(eof, SBytes.of(new_out) == D),
-            implies(ml <= 0, tail.length() == 0),
-            # progress: a call that leaves input unconsumed filled its output budget
-            implies(b_and(ml > 0, tail.length() > 0), r.length() == ml),
-        )))
+        from .values import _prove, _is_extract
+        st = supplied.t
+        on_track = (_is_extract(st) and st.children()[0].eq(Z.t) and _prove(st.children()[1] == 0)) or \
+            _prove(Z.startswith(supplied).t)
+        if on_track and _prove(zvalid(Z).t):
+            # the bytes supplied so far are a prefix of a valid stream: never raises, and the output is
+            # the next k bytes of the inflation (stated structurally, as a slice of dec(Z))
+            out = SBytes.of(self.out)
+            olen = out.length()
+            k = SInt.fresh('produced')
+            vc.assume(b_and(k >= 0, olen + k <= D.length(), implies(ml > 0, k <= ml)))
+            r = D.slice(olen, olen + k)
+            new_out = out + r
+            vc.assume(eof == (SBytes.of(new_inp).length() == Z.length()))
+            vc.assume(implies(eof, olen + k == D.length()))
+            vc.assume(implies(ml <= 0, tail.length() == 0))
+            vc.assume(implies(b_and(ml > 0, tail.length() > 0), k == ml))
+        else:
+            good = b_and(zvalid(Z), Z.startswith(supplied))
+            # corrupt input may raise (never for a prefix of a valid stream)
+            if vc.nondet_bool(label='zlib_error'):
+                vc.assume(b_not(good))
+                raise_py('zlib.error', origin='decompress')
+            r = SBytes.fresh('inflated')
+            vc.assume(implies(ml > 0, r.length() <= ml))
+            new_out = _cat(SBytes, self.out, r)
+            vc.assume(implies(good, b_and(
+                D.startswith(new_out),
+                eof == (SBytes.of(new_inp) == Z),
+                implies(eof, SBytes.of(new_out) == D),
+                implies(ml <= 0, tail.length() == 0),
+                # progress: a call that leaves input unconsumed filled its output budget
+                implies(b_and(ml > 0, tail.length() > 0), r.length() == ml),
+            )))
         vc.assume(implies(SBool.of(self.eof), b_and(r.length() == 0, eof)))
         self.inp, self.out, self.unconsumed_tail, self.eof = new_inp, new_out, tail, eof
         return r
